@@ -52,6 +52,7 @@ inductive Err where
   | zerodiv   -- ZeroDivisionError
   | index     -- IndexError
   | type      -- TypeError (e.g. subscripting `None`)
+  | exit      -- SystemExit (`exit()`; never produced by the translator, present for the same reason as `unbound`)
   | unbound   -- UnboundLocalError (never produced by the translator: a possibly unbound name is refused;
               -- present so that the error types of the models embed into this one)
   deriving DecidableEq, Repr
